@@ -190,11 +190,19 @@ def generate(rng: random.Random, cfg: dict | None = None) -> list:
 
 # ------------------------------------------------------------------ interpreter + model
 class Violation(BaseException):
+    """Raised at the first disagreement between the real system and the model.  It travels up through the program's real
+    `with` blocks, whose __exit__ may itself raise and thereby replace it; the first one is therefore also remembered
+    (FIRST) and reported whatever exception finally arrives at the top."""
+
+    FIRST: list = []
+
     def __init__(self, check, detail, step):
         super().__init__(check, detail, step)
         self.check = check
         self.detail = detail
         self.step = step
+        if not Violation.FIRST:
+            Violation.FIRST.append(self)
 
 
 class Interp:
@@ -395,6 +403,7 @@ def _execute_program(prog: list) -> dict:
 
     it = Interp()
     out = {"verdict": "ok"}
+    Violation.FIRST.clear()
     try:
         if it.real_config() != DEFAULT:
             raise Violation("pristine_precondition", {"real": it.real_config()}, 0)
@@ -404,6 +413,8 @@ def _execute_program(prog: list) -> dict:
             raise
         except (SimFault, Exception):
             it.ev("top", "caught")
+        if Violation.FIRST:
+            raise Violation.FIRST[0]  # it was replaced on its way up by an exception raised in some __exit__
         if it.stack:
             raise RuntimeError("interpreter stack not empty")
         it.check_config("end_of_program")
